@@ -328,6 +328,11 @@ func (c *c19) Step(w *sim.World, s *sim.Step) *Viol {
 	for _, p := range m.Pairs {
 		for _, sp := range hexSpellings(p.Token) {
 			var r types.QueryGetTokenPairResponse
+			if len(strings.TrimPrefix(sp, "0x")) < 64 {
+				// a short spelling right after a query for an unrelated full-width token (the answer to
+				// a query must not depend on the one asked before it)
+				q(w, "TokenPair", &types.QueryGetTokenPairRequest{RemoteDomain: p.Domain, RemoteToken: strings.Repeat("f7", 32)}, &types.QueryGetTokenPairResponse{})
+			}
 			if !q(w, "TokenPair", &types.QueryGetTokenPairRequest{RemoteDomain: p.Domain, RemoteToken: sp}, &r) || r.Pair.LocalToken != p.Local || r.Pair.RemoteDomain != p.Domain || !eq(r.Pair.RemoteToken, p.Token) {
 				return viol("C19", s.Idx, fmt.Sprintf("token-pair query (%d, %s)", p.Domain, sp), fmt.Sprintf("%d/%x=%s", p.Domain, p.Token, p.Local), fmt.Sprint(r.Pair))
 			}
